@@ -6,7 +6,7 @@
 
 use std::{error::Error, fmt, str::FromStr};
 
-use onig::{Regex, RegexOptions, Syntax};
+use onig::{MatchParam, Regex, RegexOptions, SearchOptions, Syntax};
 
 use super::{Matcher, MatcherIO, WalkEntry};
 
@@ -82,6 +82,9 @@ impl Default for RegexType {
 
 pub struct RegexMatcher {
     regex: Regex,
+    /// The pattern without the end anchor, for paths on which the anchored form makes the
+    /// engine give up (its backtracking limit).
+    unanchored: Option<Regex>,
 }
 
 impl RegexMatcher {
@@ -110,22 +113,37 @@ impl RegexMatcher {
         // end of the (grouped) pattern instead, which makes the engine backtrack into
         // the other alternatives. The extra group would renumber back-references, so
         // patterns that use them are left as they are.
-        let regex = if has_back_reference(pattern) {
-            regex
+        let (regex, unanchored) = if has_back_reference(pattern) {
+            (regex, None)
         } else {
             let (open, close) = match regex_type {
                 RegexType::PosixExtended => ("(", ")"),
                 _ => ("\\(", "\\)"),
             };
-            Regex::with_options(
+            match Regex::with_options(
                 &format!("{open}{pattern}{close}$"),
                 options | RegexOptions::REGEX_OPTION_SINGLELINE,
                 syntax,
-            )
-            .unwrap_or(regex)
+            ) {
+                Ok(anchored) => (anchored, Some(regex)),
+                Err(_) => (regex, None),
+            }
         };
-        Ok(Self { regex })
+        Ok(Self { regex, unanchored })
     }
+}
+
+/// Does `regex` match all of `text`? (Regex::is_match() panics when the engine gives up.)
+fn matches_whole(regex: &Regex, text: &str) -> Result<bool, onig::Error> {
+    regex
+        .match_with_param(
+            text,
+            0,
+            SearchOptions::SEARCH_OPTION_NONE,
+            None,
+            MatchParam::default(),
+        )
+        .map(|matched| matched == Some(text.len()))
 }
 
 /// Does the pattern contain a back-reference (an unescaped backslash followed by 1-9)?
@@ -141,8 +159,19 @@ fn has_back_reference(pattern: &str) -> bool {
 
 impl Matcher for RegexMatcher {
     fn matches(&self, file_info: &WalkEntry, _: &mut MatcherIO) -> bool {
-        self.regex
-            .is_match(file_info.path().to_string_lossy().as_ref())
+        let path = file_info.path().to_string_lossy();
+        match matches_whole(&self.regex, &path) {
+            Ok(matched) => matched,
+            // Forcing the engine through every alternative can exhaust its backtracking
+            // limit on pathological patterns; the plain first match still decides most.
+            Err(e) => match self.unanchored.as_ref().map(|r| matches_whole(r, &path)) {
+                Some(Ok(matched)) => matched,
+                _ => {
+                    eprintln!("Error matching {path} against the regular expression: {e}");
+                    false
+                }
+            },
+        }
     }
 }
 
